@@ -81,5 +81,6 @@ func c10Run(in []string) []string {
 }
 
 func init() {
+	refh.Stat = vu.Stat
 	vu.Register("C10", &vu.Prop{Gen: c10Gen, Run: c10Run})
 }
